@@ -3,7 +3,9 @@ import CashewsVerif.Lemmas.TxFaultLocks
 C16 — a failing backend never leaves a task stuck in a transaction or locks held.
 
 Every theorem is quantified over EVERY fault oracle `cfg.fails : Nat → Bool` (any number of failing commands,
-anywhere), EVERY environment `cfg.env : Nat → List (backend × lock key)` (which foreign lock holders — other open
+anywhere) with EVERY assignment of kinds `cfg.base : Nat → Bool` (each failing command raises an `Exception` or a
+BaseException that is not one — `asyncio.CancelledError`: a command cut short by a time limit / a cancelled task),
+EVERY environment `cfg.env : Nat → List (backend × lock key)` (which foreign lock holders — other open
 transactions — release their locks just before which command of this task: before the block's first command,
 between two attempts of a blocked `_lock_updates`, during commit / rollback, never), every duration `cfg.stepDt`
 of a lock-step, every mode / timeout / retry count / set-iteration order (`cfg`), every body (any length, any
@@ -43,17 +45,32 @@ theorem write_after_block_reaches_store (cfg cfg' : Cfg) (body : List BodyCmd) (
   simp only [applyCmd, dataView, logged]
   exact memGet_memSet _ _ _ _
 
-/-- **Every lock the transaction took is released, or the failing command is that very unlock** — then the entry
-lapses by itself at most `timeout` after the block was left.  Stated on what is left in the lock stores: any
-entry still carrying this transaction's token after the block has a logged `unlock` command of its own key, on
-its own backend, issued during this block, that the oracle made fail; and its deadline is within the timeout. -/
-theorem locks_released_or_self_failed (cfg : Cfg) (body : List BodyCmd) (w : FWorld)
+/-- the `unlock` of lock key `lk` on backend `b` was issued during the block (that started in `w` and ended in `w'`)
+and the oracle made it fail -/
+def OwnUnlockFailed (cfg : Cfg) (w w' : FWorld) (b lk : Nat) : Prop :=
+  ∃ i, w.counter ≤ i ∧ i < w'.counter ∧ cfg.fails i = true ∧ (⟨i, b, .unlock lk, true⟩ : Ev) ∈ w'.log
+
+/-- the entry lapses by itself at most `timeout` after the block was left -/
+def LapsesWithin (cfg : Cfg) (w' : FWorld) (e : LEntry) : Prop := ∃ d, e.dl = some d ∧ d ≤ w'.now + cfg.timeout
+
+/-- the OLD loop of `Transaction._rollback` (before 12f0cbb: `except Exception` only, `cfg.rbAll = false`) was left because
+the `unlock` of ANOTHER lock entry, issued during the block, ended with a BaseException (it was cut short by a time
+limit / the task was cancelled): the backends after it were never unlocked -/
+def RollbackLeftEarly (cfg : Cfg) (w w' : FWorld) (b lk : Nat) : Prop :=
+  cfg.rbAll = false ∧ ∃ i b' lk', w.counter ≤ i ∧ i < w'.counter ∧ cfg.fails i = true ∧ cfg.base i = true ∧
+    (b', lk') ≠ (b, lk) ∧ (⟨i, b', .unlock lk', true⟩ : Ev) ∈ w'.log
+
+/-- (remark, both loops) what is true whichever loop `_rollback` is: any entry still carrying this transaction's token
+after the block has a logged `unlock` of its own that was made to fail, or — only possible with the OLD loop — the unlock
+of another entry ended with a BaseException and `_rollback` was left.  The headline theorem
+`locks_released_or_self_failed` below is the instance for the loop of /repo. -/
+theorem locks_released_or_rollback_left_early (cfg : Cfg) (body : List BodyCmd) (w : FWorld)
     (h : w.ctx = none) (hm : NoMine w) :
     ∀ b lk e, alLookup (runBlock cfg body w).2.locks (b, lk) = some e → e.mine = true →
-      (∃ i, w.counter ≤ i ∧ i < (runBlock cfg body w).2.counter ∧ cfg.fails i = true ∧
-        (⟨i, b, .unlock lk, true⟩ : Ev) ∈ (runBlock cfg body w).2.log) ∧
-      (∃ d, e.dl = some d ∧ d ≤ (runBlock cfg body w).2.now + cfg.timeout) := by
+      (OwnUnlockFailed cfg w (runBlock cfg body w).2 b lk ∨ RollbackLeftEarly cfg w (runBlock cfg body w).2 b lk) ∧
+      LapsesWithin cfg (runBlock cfg body w).2 e := by
   intro b lk e he hmine
+  unfold OwnUnlockFailed RollbackLeftEarly LapsesWithin
   rw [runBlock_world cfg body w h] at he ⊢
   -- the invariant holds when the body starts, hence when it ends (normally or not)
   have hI0 : LockInv cfg.timeout (entered w) :=
@@ -67,13 +84,20 @@ theorem locks_released_or_self_failed (cfg : Cfg) (body : List BodyCmd) (w : FWo
   -- `__aexit__`: commit or rollback over all wrapped backends, then `close()` (which touches the context only)
   have key : ∀ w3, RExit w2 w3 → Covered cfg w.counter [] w3 →
       alLookup w3.locks (b, lk) = some e →
-      (∃ i, w.counter ≤ i ∧ i < w3.counter ∧ cfg.fails i = true ∧ (⟨i, b, .unlock lk, true⟩ : Ev) ∈ w3.log) ∧
+      ((∃ i, w.counter ≤ i ∧ i < w3.counter ∧ cfg.fails i = true ∧ (⟨i, b, .unlock lk, true⟩ : Ev) ∈ w3.log) ∨
+       (cfg.rbAll = false ∧ ∃ i b' lk', w.counter ≤ i ∧ i < w3.counter ∧ cfg.fails i = true ∧ cfg.base i = true ∧
+          (b', lk') ≠ (b, lk) ∧ (⟨i, b', .unlock lk', true⟩ : Ev) ∈ w3.log)) ∧
       (∃ d, e.dl = some d ∧ d ≤ w3.now + cfg.timeout) := by
     intro w3 hr hc3 he3
     refine ⟨?_, ?_⟩
-    · rcases hc3 b lk e he3 hmine with ⟨t, ht, _⟩ | hfu
+    · rcases hc3 b lk e he3 hmine with ⟨t, ht, _⟩ | hfu | ⟨hall, i, b', lk', h1, h2, h3, h4, h5⟩
       · cases ht
-      · exact hfu
+      · exact Or.inl hfu
+      · by_cases heq : (b', lk') = (b, lk)
+        · simp only [Prod.mk.injEq] at heq
+          obtain ⟨rfl, rfl⟩ := heq
+          exact Or.inl ⟨i, h1, h2, h3, h5⟩
+        · exact Or.inr ⟨hall, i, b', lk', h1, h2, h3, h4, heq, h5⟩
     · obtain ⟨d, hd1, hd2⟩ := (hinv b lk e (hr.2.2.2 _ _ he3) hmine).2
       exact ⟨d, hd1, by rw [hr.2.2.1]; exact hd2⟩
   unfold aexit at he ⊢
@@ -88,18 +112,48 @@ theorem locks_released_or_self_failed (cfg : Cfg) (body : List BodyCmd) (w : FWo
     simp only [Bool.false_eq_true, if_false] at he ⊢
     exact key _ (commitLoop_RExit cfg tx.backs w2) (commitLoop_cov cfg w.counter tx.backs w2 hcnt hcov) he
 
+/-- **Every lock the transaction took is released, or the failing command is that very unlock** — then the entry lapses
+by itself at most `timeout` after the block was left.  FULL statement, for the code of /repo (`_rollback` rolls every
+backend back whatever fails, `cfg.rbAll = true`, the model's default), for EVERY fault oracle and EVERY assignment of
+kinds (Exception / BaseException such as `asyncio.CancelledError`): any entry still carrying this transaction's token
+after the block has a logged `unlock` command of its own key, on its own backend, issued during this block, that the
+oracle made fail; and its deadline is within the timeout. -/
+theorem locks_released_or_self_failed (cfg : Cfg) (hall : cfg.rbAll = true) (body : List BodyCmd) (w : FWorld)
+    (h : w.ctx = none) (hm : NoMine w) :
+    ∀ b lk e, alLookup (runBlock cfg body w).2.locks (b, lk) = some e → e.mine = true →
+      OwnUnlockFailed cfg w (runBlock cfg body w).2 b lk ∧ LapsesWithin cfg (runBlock cfg body w).2 e := by
+  intro b lk e he hmine
+  obtain ⟨h1 | ⟨h3, _⟩, h2⟩ := locks_released_or_rollback_left_early cfg body w h hm b lk e he hmine
+  · exact ⟨h1, h2⟩
+  · rw [hall] at h3
+    cases h3
+
+/-- (remark, both loops) **the full statement holds even for the OLD loop when no `unlock` ends with a BaseException**: failing commands of
+BaseException kind anywhere else — in the body, while a lock is being acquired, in the `delete_many` / `set_many` of
+the commit of ANY backend (the first of several in particular: `Transaction.commit` catches BaseException and rolls
+the remaining backends back) — and failing unlocks of Exception kind leave no lock behind except one whose own
+unlock failed.  (All-`Exception` oracles, `cfg.base = fun _ => false`, are the special case proved before kinds existed.) -/
+theorem locks_released_when_unlock_faults_are_exceptions (cfg : Cfg) (body : List BodyCmd) (w : FWorld)
+    (h : w.ctx = none) (hm : NoMine w)
+    (hu : ∀ i b' lk', w.counter ≤ i → (⟨i, b', .unlock lk', true⟩ : Ev) ∈ (runBlock cfg body w).2.log → cfg.base i = false) :
+    ∀ b lk e, alLookup (runBlock cfg body w).2.locks (b, lk) = some e → e.mine = true →
+      OwnUnlockFailed cfg w (runBlock cfg body w).2 b lk ∧ LapsesWithin cfg (runBlock cfg body w).2 e := by
+  intro b lk e he hmine
+  obtain ⟨h1 | ⟨_, i, b', lk', hi1, _, _, hi4, _, hi6⟩, h2⟩ := locks_released_or_rollback_left_early cfg body w h hm b lk e he hmine
+  · exact ⟨h1, h2⟩
+  · rw [hu i b' lk' hi1 hi6] at hi4
+    cases hi4
+
 /-- **… and that stays so whatever happens to the foreign locks afterwards**: once the block has been left nothing
 of this transaction is still waiting for a lock (acquisition is sequential: a blocked `_lock_updates` has obtained
 its lock or raised before the next command starts), so when other holders release their locks LATER (any list of
 release events after the block) still every entry carrying this transaction's token is one whose own `unlock`,
 issued during the block, was made to fail. -/
-theorem locks_released_or_self_failed_after_release (cfg : Cfg) (body : List BodyCmd) (w : FWorld)
+theorem locks_released_or_self_failed_after_release (cfg : Cfg) (hall : cfg.rbAll = true) (body : List BodyCmd) (w : FWorld)
     (h : w.ctx = none) (hm : NoMine w) (later : List (Nat × Nat)) :
     ∀ b lk e, alLookup (envRel later (runBlock cfg body w).2.locks) (b, lk) = some e → e.mine = true →
-      (∃ i, w.counter ≤ i ∧ i < (runBlock cfg body w).2.counter ∧ cfg.fails i = true ∧
-        (⟨i, b, .unlock lk, true⟩ : Ev) ∈ (runBlock cfg body w).2.log) ∧
-      (∃ d, e.dl = some d ∧ d ≤ (runBlock cfg body w).2.now + cfg.timeout) :=
-  fun b lk e he hmine => locks_released_or_self_failed cfg body w h hm b lk e (envRel_sub _ _ _ _ he) hmine
+      OwnUnlockFailed cfg w (runBlock cfg body w).2 b lk ∧ LapsesWithin cfg (runBlock cfg body w).2 e :=
+  fun b lk e he hmine => locks_released_or_self_failed cfg hall body w h hm b lk e (envRel_sub _ _ _ _ he) hmine
 
 /-- the environment never releases this transaction's own locks (it cannot be blamed for a missing entry, and
 the theorems above are not vacuous because "somebody else cleaned up") -/
@@ -107,7 +161,8 @@ theorem env_keeps_own_locks (later : List (Nat × Nat)) (w : FWorld) (key : Nat 
     (he : alLookup w.locks key = some e) (hmine : e.mine = true) :
     alLookup (envRel later w.locks) key = some e := envRel_mine later w.locks key e he hmine
 
-/-- corollary: if no `unlock` command of this block was made to fail, nothing of the transaction's locks is left -/
+/-- corollary: if no `unlock` command of this block was made to fail (with an exception of either kind), nothing of
+the transaction's locks is left -/
 theorem no_lock_left_without_unlock_fault (cfg : Cfg) (body : List BodyCmd) (w : FWorld)
     (h : w.ctx = none) (hm : NoMine w)
     (hu : ∀ ev ∈ (runBlock cfg body w).2.log, w.counter ≤ ev.idx → (∃ lk, ev.cmd = .unlock lk) → ev.failed = false) :
@@ -116,9 +171,12 @@ theorem no_lock_left_without_unlock_fault (cfg : Cfg) (body : List BodyCmd) (w :
   cases hme : e.mine with
   | false => rfl
   | true =>
-    obtain ⟨⟨i, h1, _, _, h4⟩, _⟩ := locks_released_or_self_failed cfg body w h hm key.1 key.2 e he hme
-    have := hu _ h4 h1 ⟨_, rfl⟩
-    cases this
+    obtain ⟨⟨i, h1, _, _, h4⟩ | ⟨_, i, _, _, h1, _, _, _, _, h4⟩, _⟩ :=
+      locks_released_or_rollback_left_early cfg body w h hm key.1 key.2 e he hme
+    · have := hu _ h4 h1 ⟨_, rfl⟩
+      cases this
+    · have := hu _ h4 h1 ⟨_, rfl⟩
+      cases this
 
 /-- a body that raised — a failing command, `LockedError`, or its own exception — **applies none of the
 transaction's writes**: the data of every backend is exactly what it was before the block (whatever else fails
@@ -176,7 +234,12 @@ theorem fault_never_silent (cfg : Cfg) (body : List BodyCmd) (w : FWorld) (h : w
 def failsAt (l : List Nat) : Nat → Bool := fun i => l.contains i
 
 /-- locked mode, timeout 16 ticks, 5 lock attempts -/
-def demoCfg (faults : List Nat) : Cfg := ⟨.locked, 16, 5, [], failsAt faults, 0, fun _ => []⟩
+def demoCfg (faults : List Nat) : Cfg := ⟨.locked, 16, 5, [], failsAt faults, 0, fun _ => [], fun _ => false, true⟩
+
+/-- the same, the faults listed in `bases` being of BaseException kind (a command cut short by a time limit ends with
+`asyncio.CancelledError`); `rbAll`: which `_rollback` loop (true = /repo) -/
+def demoCfgB (faults bases : List Nat) (rbAll : Bool) : Cfg :=
+  { demoCfg faults with base := failsAt bases, rbAll := rbAll }
 
 /-- two backends: writes on 0 (set, incr, delete) and on 1 (set with a TTL) -/
 def demoBody : List BodyCmd := [.set 0 0 1 none, .set 1 0 2 (some 8), .incr 0 1, .delete 0 2]
@@ -199,7 +262,7 @@ unlocked; the caller sees that fault -/
 example :
     let r := runBlock (demoCfg [8]) demoBody demoWorld
     r.2.locks = [((0, 2), ⟨true, some 16⟩)] ∧ r.2.counter = 11 ∧ r.2.ctx = none ∧
-    (match r.1 with | .err (.fault 8) => true | _ => false) = true ∧
+    (match r.1 with | .err (.fault 8 .exception) => true | _ => false) = true ∧
     (⟨8, 0, .unlock 2, true⟩ : Ev) ∈ r.2.log ∧ (⟨9, 0, .unlock 3, false⟩ : Ev) ∈ r.2.log ∧
     (⟨10, 1, .unlock 1, false⟩ : Ev) ∈ r.2.log := by decide +kernel
 
@@ -218,7 +281,7 @@ the caller sees the rollback's exception, the lock whose unlock failed is left, 
 store is untouched, the task is out of the transaction -/
 example :
     let r := runBlock (demoCfg [2, 3]) demoBody demoWorld
-    (match r.1 with | .err (.fault 3) => true | _ => false) = true ∧
+    (match r.1 with | .err (.fault 3 .exception) => true | _ => false) = true ∧
     r.2.locks = [((0, 1), ⟨true, some 16⟩)] ∧ r.2.data = demoWorld.data ∧ r.2.ctx = none := by decide +kernel
 
 /-- a write right after any of these blocks reaches the store -/
@@ -238,7 +301,7 @@ example :
 /-- locked mode, timeout 4, 3 lock attempts, a lock-step takes 1; the holder of lock key 2 of backend 0 releases it
 just before command `rel` -/
 def contCfg (faults : List Nat) (rel : Nat) : Cfg :=
-  ⟨.locked, 4, 3, [], failsAt faults, 1, fun i => if i = rel then [(0, 2)] else []⟩
+  ⟨.locked, 4, 3, [], failsAt faults, 1, fun i => if i = rel then [(0, 2)] else [], fun _ => false, true⟩
 
 /-- `set_many` over keys 0, 1, 2 (lock keys 1, 2, 3), then a `delete_many` -/
 def contBody : List BodyCmd := [.setMany 0 [(0, 1), (1, 2), (2, 3)] none, .delMany 0 [2, 3]]
@@ -274,15 +337,88 @@ example :
 the rollback, nothing is applied, nothing is left — also after any later release -/
 example :
     let r := runBlock (contCfg [3] 2) contBody contWorld
-    (match r.1 with | .err (.fault 3) => true | _ => false) = true ∧ r.2.locks = [] ∧ r.2.counter = 6 ∧
+    (match r.1 with | .err (.fault 3 .exception) => true | _ => false) = true ∧ r.2.locks = [] ∧ r.2.counter = 6 ∧
     r.2.data = demoWorld.data ∧ r.2.ctx = none ∧ envRel [(0, 2), (0, 3)] r.2.locks = [] := by decide +kernel
 
 /-- the fault hits a retry of the blocked acquisition itself (command 2) and the unlock of the lock taken before
 (command 3) fails too: that entry — and only that — is left, and a later release of the foreign lock does not change it -/
 example :
     let r := runBlock (contCfg [2, 3] 99) contBody contWorld
-    (match r.1 with | .err (.fault 3) => true | _ => false) = true ∧
+    (match r.1 with | .err (.fault 3 .exception) => true | _ => false) = true ∧
     r.2.locks = [((0, 2), ⟨false, none⟩), ((0, 1), ⟨true, some 4⟩)] ∧
     envRel [(0, 2)] r.2.locks = [((0, 1), ⟨true, some 4⟩)] ∧ r.2.ctx = none := by decide +kernel
+
+/-! #### failures of BaseException kind (`asyncio.CancelledError`: a command cut short by a time limit) -/
+
+/-- the class of seeded change C16-4: the FIRST backend's commit is cut short (its `delete_many`, command 5, ends
+with CancelledError).  `Transaction.commit` catches BaseException: backend 0's own locks go in its `finally`
+(commands 6-8), backend 1 is rolled back and unlocked (command 9); nothing is left, nothing is applied, the caller
+sees that very CancelledError -/
+example :
+    let r := runBlock (demoCfgB [5] [5] true) demoBody demoWorld
+    (match r.1 with | .err (.fault 5 .baseException) => true | _ => false) = true ∧
+    r.2.locks = [] ∧ r.2.counter = 10 ∧ r.2.ctx = none ∧ r.2.data = demoWorld.data ∧
+    (⟨9, 1, .unlock 1, false⟩ : Ev) ∈ r.2.log ∧
+    (r.2.log.filter fun ev => ev.failed && (match ev.cmd with | .unlock _ => true | _ => false)) = [] := by
+  decide +kernel
+
+/-- the class of defect D36 (N1), on the loop of /repo: the body raises after writing on two backends; the rollback's
+unlock of lock key 2 of backend 0 (command 6) ends with CancelledError.  Its siblings of the same `gather` run (5, 7),
+`_rollback` goes on: backend 1 is unlocked (command 8), the CancelledError is re-raised at the end; only the entry whose
+own unlock failed is left -/
+example :
+    let r := runBlock (demoCfgB [6] [6] true) (demoBody ++ [.raise]) demoWorld
+    (match r.1 with | .err (.fault 6 .baseException) => true | _ => false) = true ∧
+    r.2.locks = [((0, 2), ⟨true, some 16⟩)] ∧ r.2.counter = 9 ∧ r.2.ctx = none ∧
+    (⟨8, 1, .unlock 1, false⟩ : Ev) ∈ r.2.log ∧ r.2.data = demoWorld.data := by
+  decide +kernel
+
+/-- the same fault as an `Exception`: same commands, the caller sees the Exception -/
+example :
+    let r := runBlock (demoCfgB [6] [] true) (demoBody ++ [.raise]) demoWorld
+    (match r.1 with | .err (.fault 6 .exception) => true | _ => false) = true ∧
+    r.2.locks = [((0, 2), ⟨true, some 16⟩)] ∧ r.2.counter = 9 := by decide +kernel
+
+/-- **Remark about the OLD loop of `Transaction._rollback`** (`except Exception` only, before repair 12f0cbb / D36;
+`cfg.rbAll = false`): the full statement was FALSE of it — the hypothesis `cfg.rbAll = true` of
+`locks_released_or_self_failed` cannot be dropped.  Witness (reproduced on the real code by
+corpus/C16/N1_rollback_unlock_cancelled_other_backend_keeps_its_lock.json with 12f0cbb reverted): the run above with
+the old loop — the CancelledError of command 6 leaves `_rollback`, backend 1 is never unlocked (8 commands in all), its
+lock `(1, 1)` stays with its full lease although no unlock of it was ever issued. -/
+theorem old_rollback_loop_left_locks :
+    ∃ (cfg : Cfg) (body : List BodyCmd) (w : FWorld), cfg.rbAll = false ∧ w.ctx = none ∧ NoMine w ∧
+      ∃ b lk e, alLookup (runBlock cfg body w).2.locks (b, lk) = some e ∧ e.mine = true ∧
+        ¬ OwnUnlockFailed cfg w (runBlock cfg body w).2 b lk := by
+  refine ⟨demoCfgB [6] [6] false, demoBody ++ [.raise], demoWorld, rfl, rfl,
+    fun _ _ h => by simp [demoWorld, FWorld.init] at h, 1, 1, ⟨true, some 16⟩, by decide +kernel, rfl, ?_⟩
+  rintro ⟨i, _, _, _, hmem⟩
+  have hno : ∀ ev ∈ (runBlock (demoCfgB [6] [6] false) (demoBody ++ [.raise]) demoWorld).2.log,
+      ¬ (ev.b = 1 ∧ ev.cmd = .unlock 1) := by decide +kernel
+  exact hno _ hmem ⟨rfl, rfl⟩
+
+/-- … and what that run looked like -/
+example :
+    let r := runBlock (demoCfgB [6] [6] false) (demoBody ++ [.raise]) demoWorld
+    (match r.1 with | .err (.fault 6 .baseException) => true | _ => false) = true ∧
+    r.2.locks = [((1, 1), ⟨true, some 16⟩), ((0, 2), ⟨true, some 16⟩)] ∧ r.2.counter = 8 ∧ r.2.ctx = none := by
+  decide +kernel
+
+/-- the first exception of a `gather` decides (seen on the OLD loop): unlock 5 fails with an `Exception`, its sibling 6
+with a CancelledError — the awaiter gets the Exception, `_rollback` goes on; the other way round it was left -/
+example :
+    (runBlock (demoCfgB [5, 6] [6] false) (demoBody ++ [.raise]) demoWorld).2.counter = 9 ∧
+    (runBlock (demoCfgB [5, 6] [5] false) (demoBody ++ [.raise]) demoWorld).2.counter = 8 := by decide +kernel
+
+/-- three backends, commit: backend 0's `set_many` (command 3) fails with an Exception, the rollback of backend 1 is
+cut short (its unlock, command 5, CancelledError): the caller sees the CancelledError (it replaces the commit's
+exception), backend 2 kept its lock with the OLD loop and is unlocked by the loop of /repo -/
+example :
+    let body : List BodyCmd := [.set 0 0 1 none, .set 1 0 1 none, .set 2 0 1 none]
+    let r := runBlock (demoCfgB [3, 5] [5] false) body demoWorld
+    let r' := runBlock (demoCfgB [3, 5] [5] true) body demoWorld
+    (match r.1 with | .err (.fault 5 .baseException) => true | _ => false) = true ∧
+    r.2.locks = [((1, 1), ⟨true, some 16⟩), ((2, 1), ⟨true, some 16⟩)] ∧
+    (match r'.1 with | .err (.fault 5 .baseException) => true | _ => false) = true ∧
+    r'.2.locks = [((1, 1), ⟨true, some 16⟩)] := by decide +kernel
 
 end CashewsVerif.Props.C16
